@@ -248,7 +248,7 @@ func prop(t *rapid.T) {
 		case 2:
 			m := rux.M{}
 			for k, v := range vals {
-				m["{"+k+"}"] = v
+				m["{"+k+"}"] = asAny(v) // the builder stringifies its values like the other two styles do
 			}
 			q := url.Values{}
 			for k, v := range extras {
